@@ -2,6 +2,7 @@
 //! (metamorphic: inject the empty positive look-ahead `(?=)` at every site).
 
 use crate::common::*;
+use crate::casefold;
 use crate::counts;
 use crate::engine::{self, Out};
 use crate::kf;
@@ -128,13 +129,17 @@ pub fn run_c03(cx: &Ctx) -> i32 {
     t.count("large_count_sweep_programs", t4.programs);
     t.count("large_count_sweep_evaluations", t4.evaluations);
     t.merge(t4);
+    let tc = casefold::sweep(casefold::Which::C03);
+    t.count("casefold_sweep_programs", tc.programs);
+    t.count("casefold_sweep_evaluations", tc.evaluations);
+    t.merge(tc);
     finish(
         cx,
         t,
         Finish {
             rule: format!(
-                "every base pattern of {} x every single injection site of (?=) (before and after every AST node, at every depth; texts up to length {}) plus the all-sites variant (texts up to length {}) x every text over {:?} x every offset; base and variant are both run on the real crate and every group is compared (metamorphic, no reference model); variants that no longer compile are skipped; non-trivial = compared cases with a match; counters report how many injections changed the engine class (whole-pattern hand-off -> VM) or the number of Delegate instructions; plus a {}",
-                space.describe(), single_site_len, max_len, alphabet, counts::describe(counts::Which::C03, dense, top)
+                "every base pattern of {} x every single injection site of (?=) (before and after every AST node, at every depth; texts up to length {}) plus the all-sites variant (texts up to length {}) x every text over {:?} x every offset; base and variant are both run on the real crate and every group is compared (metamorphic, no reference model); variants that no longer compile are skipped; non-trivial = compared cases with a match; counters report how many injections changed the engine class (whole-pattern hand-off -> VM) or the number of Delegate instructions; plus a {}; plus a {}",
+                space.describe(), single_site_len, max_len, alphabet, counts::describe(counts::Which::C03, dense, top), casefold::describe(casefold::Which::C03)
             ),
             exhaustive: true,
             bounds: jobj! {"space" => space.describe(), "max_text_len" => max_len},
